@@ -21,7 +21,8 @@ from ..worlds import build_world
 ID = "C13"
 ENGINE = "eqlmc-E1"
 RULE = ("cases = (family, class, fields given, keyword/positional, value kinds, declaration style); all combinations "
-        "listed in cases(); non-trivial = some but not all members of the domain are expected")
+        "listed in cases(); non-trivial = some but not all members of the domain are expected"
+        ' Wave 7: a constrained predicate-form variable next to disjunctions / negated conjunctions one side of which does not mention it, the variable or an attribute of it selected, against the explicit form.')
 ASSUMPTIONS = ["objects compared by identity; order compared for single-variable results"]
 
 DM = (
